@@ -103,8 +103,13 @@ func (w *World) AddPath(path string, sch *schema.BodySchema, files map[string]st
 }
 
 // Collect fills the path contexts with collected targets/origins (as a language server does).
-func (w *World) Collect() []QResult {
-	var out []QResult
+type CollectRes struct {
+	P *PathData
+	R QResult
+}
+
+func (w *World) Collect() []CollectRes {
+	var out []CollectRes
 	for _, p := range w.Paths {
 		if p.Fail {
 			continue
@@ -117,7 +122,7 @@ func (w *World) Collect() []QResult {
 			}
 			return d.CollectReferenceTargets()
 		})
-		out = append(out, rt)
+		out = append(out, CollectRes{p, rt})
 		if t, ok := rt.Val.(reference.Targets); ok && rt.Panic == "" {
 			p.Ctx.ReferenceTargets = t
 		}
@@ -128,7 +133,7 @@ func (w *World) Collect() []QResult {
 			}
 			return d.CollectReferenceOrigins()
 		})
-		out = append(out, ro)
+		out = append(out, CollectRes{p, ro})
 		if o, ok := ro.Val.(reference.Origins); ok && ro.Panic == "" {
 			p.Ctx.ReferenceOrigins = o
 		}
@@ -270,4 +275,46 @@ func sortedFileNames(m map[string][]byte) []string {
 	}
 	sort.Strings(ks)
 	return ks
+}
+
+// parserRanges: every range present in the parsed syntax trees of a path (what the HCL parser
+// itself supplies).  A malformed range that is copied verbatim from here is the parser's.
+func parserRanges(p *PathData) map[hcl.Range]bool {
+	set := map[hcl.Range]bool{}
+	for _, f := range p.Ctx.Files {
+		body, ok := f.Body.(*hclsyntax.Body)
+		if !ok {
+			continue
+		}
+		hclsyntax.VisitAll(body, func(n hclsyntax.Node) hcl.Diagnostics {
+			set[n.Range()] = true
+			switch x := n.(type) {
+			case *hclsyntax.Body:
+				set[x.SrcRange] = true
+				set[x.EndRange] = true
+			case *hclsyntax.Attribute:
+				set[x.SrcRange] = true
+				set[x.NameRange] = true
+				set[x.EqualsRange] = true
+			case *hclsyntax.Block:
+				set[x.TypeRange] = true
+				set[x.OpenBraceRange] = true
+				set[x.CloseBraceRange] = true
+				set[x.DefRange()] = true
+				for _, l := range x.LabelRanges {
+					set[l] = true
+				}
+			case *hclsyntax.ScopeTraversalExpr:
+				for _, t := range x.Traversal {
+					set[t.SourceRange()] = true
+				}
+			case *hclsyntax.FunctionCallExpr:
+				set[x.NameRange] = true
+				set[x.OpenParenRange] = true
+				set[x.CloseParenRange] = true
+			}
+			return nil
+		})
+	}
+	return set
 }
